@@ -80,10 +80,12 @@ def coq_mdef(name, d, members):
         wrap = 'WClassMethod'
     elif k == 'static':
         wrap = 'WStaticMethod'
-    elif k in ('prop', 'attr'):
+    elif k == 'attr':
         wrap = f'(WGetter (AVal {coq_val(d.get("val"))}))'
+    elif k == 'prop':
+        wrap = f'(WProperty (Ok {coq_val(d.get("val"))}))'
     elif k == 'prop_raise':
-        wrap = '(WGetter (ARaise ValueErrorC))'
+        wrap = '(WProperty (Raise ValueErrorC))'
     elif k == 'attr_obj':
         last = {}
         for i, v, _ in d['inner']:       # setattr one after the other: the last value of a member stays
@@ -93,7 +95,9 @@ def coq_mdef(name, d, members):
     elif k == 'std_tok':
         wrap = '(WGetter (AVal (VTok 7%nat)))'
     elif k == 'std_str':
-        wrap = '(WGetter (AVal (VStr "K"%string)))'
+        wrap = '(WProperty (Ok (VStr "K"%string)))'         # class_name, a property of GenericMixin
+    elif k == 'std_prop':
+        wrap = '(WProperty (Ok VNone))'                      # type_var / type_vars (the model evaluates the programs)
     else:
         wrap = '(WGetter (AVal VNone))'
     return f'(Build_mdef {coq_str(name)} {nat(d["id"])} {coq_list(inner)} {wrap} {coq_list(outer)})'
@@ -178,7 +182,7 @@ def effective_defs(case, world, names):
             out.append((n, table[n]))
         elif n in STANDARD:
             k = STANDARD[n]
-            out.append((n, {'kind': {'plain': 'plain', 'tok': 'std_tok', 'str': 'std_str', 'none': 'std_none'}[k], 'id': 40 + sorted(STANDARD).index(n)}))
+            out.append((n, {'kind': {'plain': 'plain', 'tok': 'std_tok', 'str': 'std_str', 'none': 'std_prop'}[k], 'id': 40 + sorted(STANDARD).index(n)}))
         elif n.startswith('__'):
             out.append((n, {'kind': 'std_none', 'id': 0}))
         else:
@@ -203,7 +207,7 @@ def coq_case(c, r):
         oc = None if (c['args'] is None or c.get('in_init')) else c['args']
         world = [w for w in r['world'] if w[0] != 4]
         return (f'eval_case_tv {coq_world(world)} {nat(c["inst"])} {"None" if oc is None else "(Some " + toks(oc) + ")"} '
-                f'{nat(c["op"])} {coq_shape(c["shape"])} {coq_bool(bool(c.get("full")))}')
+                f'{nat(c["op"])} {coq_shape(c["shape"])}')
     eff = effective_defs(c, r['world'], r['dir'])
     if eff is None:
         return None
@@ -288,7 +292,7 @@ def gen_tv(rng, tier):
         front = []
         if kind == 'binding_foreign':
             # a parametrised base in front of the binding base that has nothing to do with the mixin
-            # (region of the known findings K-C20-builtin-alias-first / K-C20-foreign-generic-first)
+            # (region of the fixed findings K-C20-builtin-alias-first / K-C20-foreign-generic-first)
             for _ in range(rng.choice([1, 1, 2])):
                 if rng.random() < 0.5:
                     front.append(['builtin', 'list', [20 + rng.randrange(12)]])
@@ -296,7 +300,6 @@ def gen_tv(rng, tier):
                     tvf = rng.sample(range(8), rng.choice([1, 2]))
                     p = direct_class(tvf, mixin=False)
                     front.append(['alias', p, [20 + rng.randrange(12) for _ in tvf]])
-            case['full'] = True
         elif rng.random() < 0.12:
             # a parametrised base the scan passes over: Mid[z] with class Mid(D0[T]) forwarding its parameter
             tvm = rng.sample(range(8), 1)
@@ -528,10 +531,10 @@ def read_dm_model(m, n_members):
         k = rd.one()
         p = rd.take(2 * k)
         demanded.append(sorted(zip(p[0::2], p[1::2])))
-    in_dom, no_raise, no_dd, m_ok = rd.take(4)
+    claimed, no_dd, m_ok = rd.take(3)
     nj = rd.one()
     journal = [rd.take(5) for _ in range(nj)]
-    return res, demanded, bool(in_dom), bool(no_raise), bool(no_dd), bool(m_ok), journal
+    return res, demanded, bool(claimed), True, bool(no_dd), bool(m_ok), journal
 
 
 def split_result(out):
@@ -770,7 +773,7 @@ def run(tier, seed, replay=None):
                 nontrivial = len(c['classes']) >= 2
                 if g:
                     glue.append({'case': c, 'what': g})
-                if not m_meets and not c.get('full'):      # full: region of the refuted statement
+                if not m_meets:
                     meets_fail.append({'case': c, 'model': m})
             else:
                 corr, prop, what, claimed, no_dd, m_ok, bad, no_raise = judge_dm(c, r, m)     # no_dd: outside every known-finding region
